@@ -39,6 +39,11 @@ func Leaf(tag string, i, j int) ast.Vertex {
 //   Value        → V<i>
 //   Position     → a recognisable position (line i+1 …)
 func Build(mk func() ast.Vertex, spec []SlotSpec, child func(i, j int) ast.Vertex) *Built {
+	return BuildTagged(mk, spec, child, "")
+}
+
+// BuildTagged is Build with every marker tag prefixed (nested synthetic nodes need distinct markers).
+func BuildTagged(mk func() ast.Vertex, spec []SlotSpec, child func(i, j int) ast.Vertex, pre string) *Built {
 	n := mk()
 	v, fs := Elem(n)
 	b := &Built{Node: n, Fields: fs, Spec: spec}
@@ -57,13 +62,13 @@ func Build(mk func() ast.Vertex, spec []SlotSpec, child func(i, j int) ast.Verte
 		fv := v.Field(f.Idx)
 		switch f.Kind {
 		case FTok:
-			fv.Set(reflect.ValueOf(&token.Token{ID: token.ID(60000 + i), Value: Marker("T", i, 0),
-				FreeFloating: []*token.Token{{ID: token.T_WHITESPACE, Value: Marker("F", i, 0)}}}))
+			fv.Set(reflect.ValueOf(&token.Token{ID: token.ID(60000 + i), Value: Marker(pre+"T", i, 0),
+				FreeFloating: []*token.Token{{ID: token.T_WHITESPACE, Value: Marker(pre+"F", i, 0)}}}))
 		case FToks:
 			var l []*token.Token
 			for j := 0; j < spec[i].Items; j++ {
-				l = append(l, &token.Token{ID: token.ID(61000 + i), Value: Marker("S", i, j),
-					FreeFloating: []*token.Token{{ID: token.T_WHITESPACE, Value: Marker("G", i, j)}}})
+				l = append(l, &token.Token{ID: token.ID(61000 + i), Value: Marker(pre+"S", i, j),
+					FreeFloating: []*token.Token{{ID: token.T_WHITESPACE, Value: Marker(pre+"G", i, j)}}})
 			}
 			if l == nil {
 				l = []*token.Token{}
@@ -82,7 +87,7 @@ func Build(mk func() ast.Vertex, spec []SlotSpec, child func(i, j int) ast.Verte
 			}
 			fv.Set(reflect.ValueOf(l))
 		case FValue:
-			fv.SetBytes(Marker("V", i, 0))
+			fv.SetBytes(Marker(pre+"V", i, 0))
 		case FPos:
 			fv.Set(reflect.ValueOf(&position.Position{StartLine: i + 1, EndLine: i + 2, StartPos: 100 + i, EndPos: 200 + i}))
 		}
